@@ -13,6 +13,23 @@ CLAIMED = {
          "All five numeric schemas are driven with every boundary magnitude (type bounds +-1, 2^24/2^53 +-1, MaxFloat32 and the float32 rounding boundary, 1e19, 1e39, 1e300, fractions, NaN/Inf, odd strings) in every representation that can express it (int, int32, int64, float32, float64, decimal string, exponent string, JSON number through zjson, form string through zhttp), with and without an upper-bound test. A silent result must equal the exact input (truncated toward zero for integers, correctly rounded for floats) as computed with math/big. The full product is enumerated, so any wrap/saturation at a type boundary is inside the explored space.",
          "A coerce issue is always accepted (one-directional property); JSON numbers are compared after IEEE-double decoding; in-range float rounding is accepted.",
          "DESIGN.md section 4 C18"),
+
+ "C01": ("stateless exhaustive exploration of the real code over (skeleton, <=k focus units x full alphabets, every field visit order, both modes); spec-free re-evaluation of every declared constraint on the destination",
+         "Every schema tree from the skeleton catalogue (struct/slice/pointer nestings to depth 3, all primitive kinds) is executed on the real implementation for every joint configuration x input of any two units (Required/Default/Catch/tests x valid/missing/nil/blank/alt representation/failing/uncoercible/falsy), under every permutation of field visits at every struct visit (map-order hook), in Parse and Validate. When the call returns no issues the destination is walked and each declared test is re-evaluated by predicates that do not call zog; required/not-nil nodes must have been present. All pairwise interactions between any two positions are covered exhaustively - exactly where sibling/element state leaks hide.",
+         "Shapes beyond the skeletons, >k simultaneously deviating units and values outside the alphabets are not covered. Map iteration order is owned through the overlay hook; pool answers are LIFO here (C07 varies them).",
+         "DESIGN.md section 4 C01"),
+ "C02": ("stateless exhaustive exploration of the real code over the core space; every execution compared with an executable reference model (issue multiset, nil iff none)",
+         "Same enumeration as C01. For every execution the multiset of (key, path, code, type) of all issues except $first must equal the reference model's (written from the documentation, no shared state), and the result must be nil iff the model has no violation. Exact in both directions: missing, duplicated, misplaced or spurious issues are all differences.",
+         "Reference model scen/core_spec.go is trusted; PostTransforms excluded (C12). Order of issues within one key compared as multiset.",
+         "DESIGN.md section 4 C02"),
+ "C05": ("stateless exhaustive exploration; differential twin (same case with every Catch removed) on the real code plus node-local model for the catcher's own value",
+         "Every core case containing a catching primitive (at struct fields, slice elements, behind pointers, in struct-in-slice; catcher input ok / missing+required / uncoercible / failing one / failing both tests) is executed twice on the real code - as is, and with each Catch removed - under the same visit orders. The catcher must contribute no issue, all other nodes' issues and destination values must be identical in the two runs, and the catcher's own value must be the catch value iff its own failure happened.",
+         "Twin comparison needs no model; own-value uses the model's node-local rule. Same bounds as C01.",
+         "DESIGN.md section 4 C05"),
+ "C09": ("stateless exhaustive exploration of all field-visit permutations at every range-over-map site (hooked by overlay); differential against the canonical order on the real code",
+         "For every core case with a >=2-field struct the real code is run under the canonical order and under every permutation at every struct visit (jointly across nesting levels and slice elements); issues for every key except $first and, on success, the destination must be identical; $first must be one of the issues. The instrumenter re-derives the list of range-over-map sites by type on every run and reports unhooked order-sensitive calls.",
+         "Insertion order can only act through map iteration, which is hooked (sites listed in evidence). Runtime map internals are irrelevant once hooked.",
+         "DESIGN.md section 4 C09"),
 }
 NOT_YET = "check not built yet in this round (work in progress; see DESIGN.md section 4)"
 def main():
